@@ -17,12 +17,16 @@
 //   {"k":"c","c":0..15}                                                           condition operand, Arm numbering (eq=0 .. nv=15), mapped BY NAME to CondCode
 //   {"k":"cc","c":0..15}                                                          condition SUFFIX (b.<cond>): composed into the instruction id, not an operand
 //   {"k":"l","v":byte displacement,"page":0|1}                                    pc-relative target, passed as absolute Imm = kBase + v (case emitted at offset 0)
+//   {"k":"l",...,"lab":1,"lpos":P,"pc":Q}                                         the same target passed as a Label operand: the caller binds the label at section
+//                                                                                 offset P and emits the instruction at offset Q (build() only inserts the Label)
+//   {"k":"m","pcrel":1,"lab":1,"lpos":P,"pc":Q,"moff":O, ...}                     label-based memory operand a64::Mem(label, O)  (ldr literal, ldrsw, prfm)
 //   {"k":"m","b":base id,"bsp":0|1,"mode":"o|pre|post","off":int,"xi":index id or -1,"xt":"w|x","xsp":0|1,"sh":"" or shift name,"amt":n or -1}
 //   {"k":"-"}                                                                     an optional operand that is absent (skipped)
 //
 // API
 //   a64forms::kBase                                  base address the CodeHolder must be initialised with (pc-relative cases)
-//   bool a64forms::build(const vj::Value& c, a64forms::Built& out)
+//   bool a64forms::label_case(const vj::Value& c, long long& pc, long long& lpos)  true when an operand carries "lab":1 (gives its placement)
+//   bool a64forms::build(const vj::Value& c, a64forms::Built& out, const Label* label = nullptr)
 //        fills out.inst_id (0 = unknown mnemonic), out.ops[0..out.n) ; returns false when a descriptor cannot be turned into an
 //        asmjit operand at all (unknown kind / arrangement) - the caller should log the case as not built.
 //   a64forms::cond_by_name / shift_by_name / kCondNames                          name tables (the only place CondCode/ShiftOp numbering is touched)
@@ -107,7 +111,15 @@ struct Built {
   size_t n = 0;
 };
 
-static inline bool build(const vj::Value& c, Built& out) {
+static inline bool label_case(const vj::Value& c, long long& pc, long long& lpos) {
+  const vj::Value& od = c["o"];
+  for (size_t k = 0; k < od.size(); k++) {
+    if (od[k].has("lab") && od[k]["lab"].i() == 1) { pc = od[k]["pc"].i(); lpos = od[k]["lpos"].i(); return true; }
+  }
+  return false;
+}
+
+static inline bool build(const vj::Value& c, Built& out, const Label* label = nullptr) {
   const std::string& name = c["n"].s();
   // "iid" = ordinal of a64::Inst::kId<Name> in the public header enum (what a.<name>(...) passes to _emitI); the textual
   // lookup InstAPI::string_to_inst_id is only a fallback (it does not know every mnemonic in this tree).
@@ -149,6 +161,12 @@ static inline bool build(const vj::Value& c, Built& out) {
       arm::CondCode cc;
       if (cv < 0 || cv > 15 || !cond_by_name(kCondNames[cv], cc)) { built = false; break; }
       ops[n++] = Imm(uint32_t(cc));
+    } else if (kind == "l" && d.has("lab") && d["lab"].i() == 1) {
+      if (!label) { built = false; break; }
+      ops[n++] = *label;
+    } else if (kind == "m" && d.has("pcrel") && d["pcrel"].i() == 1) {
+      if (!label) { built = false; break; }
+      ops[n++] = a64::Mem(*label, int32_t(d["moff"].i()));
     } else if (kind == "l") {
       uint64_t pc = kBase;       // the case is emitted at offset 0
       int64_t v = d["v"].i();
